@@ -155,7 +155,7 @@ def scenarios(tier):
         else:
             small = [61, 82, 120, 121, 143, 179, 181]      # 82, 143: a short last segment of 22 / 23 bytes (FD length 32 after padding)
             mid = [119, 180, 240, 241, 600, 601]
-            large = [1785, 15300]
+            large = [1785, 15300, 65536, 70000]      # beyond 65535 bytes: the third byte of the 24-bit size field is in use
         wins = [1, 2, 3, 255] if quick else [1, 2, 3, 5, 8, 255]
         limits = (1, 2, 5, 255) if quick else (1, 2, 3, 5, 8, 255)
         if not quick:
